@@ -114,6 +114,9 @@ func Index(a Object) (Int, error) {
 func IndexInt(a Object) (int, error) {
 	i, err := Index(a)
 	if err != nil {
+		if IsException(OverflowError, err) {
+			return 0, ExceptionNewf(IndexError, "cannot fit '%s' into an index-sized integer", a.Type().Name)
+		}
 		return 0, err
 	}
 	intI := int(i)
